@@ -243,6 +243,8 @@ def api_outcome(cfg):
 
 
 def check(run):
+    import genlib as _gl
+    _gl.validate_reference_get(run, n=run.n(20, 200))
     import genlib
     genlib.validate_spline_modifier(run, n=run.n(40, 400))
     import genlib
